@@ -28,16 +28,36 @@ var rcClients = []struct {
 	{[]string{"a/b"}, "TEST.GOKRB5"}, // joins to the same string as the next one
 	{[]string{"a", "b"}, "TEST.GOKRB5"},
 	{[]string{"alice"}, "OTHER.REALM"}, // same name, other realm
+	// names are octet strings (GeneralString passes Latin-1 and anything else): two names that differ in
+	// octets that are not valid UTF-8 are two names
+	{[]string{"m\xfcller"}, "TEST.GOKRB5"},
+	{[]string{"m\xf6ller"}, "TEST.GOKRB5"},
+	{[]string{"alice"}, "TEST.GOKRB5\xff"},
+	{[]string{"alice"}, "TEST.GOKRB5\xfe"},
 }
 
 var rcServices = [][]string{{"HTTP", "host.test.gokrb5"}, {"host", "host.test.gokrb5"}}
 
+// the same instant arrives as a time.Time in whatever location the decoder gave it: a timestamp that was
+// encoded with a numeric zone offset decodes with a new *time.Location at every decode. What the cache
+// remembers is the instant.
+var rcAuthCalls int64
+
 func rcAuth(client int, ct time.Time) types.Authenticator {
+	sec := ct.Truncate(time.Second)
+	switch atomic.AddInt64(&rcAuthCalls, 1) % 4 {
+	case 1:
+		sec = sec.In(time.FixedZone("", 5400))
+	case 2:
+		sec = sec.In(time.FixedZone("", -12600))
+	case 3:
+		sec = sec.UTC()
+	}
 	return types.Authenticator{
 		AVNO:   5,
 		CRealm: rcClients[client].realm,
 		CName:  types.PrincipalName{NameType: 1, NameString: rcClients[client].name},
-		CTime:  ct.Truncate(time.Second),
+		CTime:  sec,
 		Cusec:  int(ct.Sub(ct.Truncate(time.Second)) / time.Microsecond),
 	}
 }
